@@ -210,7 +210,12 @@ func Begin(c Config) {
 func End() Stats {
 	active = false
 	s := st
-	s.TraceHash = mix(s.TraceHash, uint64(s.Steps))
+	if len(clients) > 1 {
+		// With one client the number of yields depends on which one-time
+		// initialisations this process has already done, and says nothing
+		// about the schedule; leave it out of the trace identity.
+		s.TraceHash = mix(s.TraceHash, uint64(s.Steps))
+	}
 	return s
 }
 
